@@ -3,12 +3,14 @@
 // C18, first sentence: arithmetic between Time and DimensionlessInteger values is exact i64 arithmetic, and
 // converting to and from i64 is the identity.
 //
-// Specification side: the mathematical result of + - and unary - is computed in i128 (exact for two i64); for * see
-// `m_mul`, for / see `m_div`.  Each operator is proved equal to it under the WEAKEST precondition under which
-// an exact i64 result exists at all: the mathematical result lies in [i64::MIN, i64::MAX] and the divisor is not 0
-// (A7).  That the precondition is the weakest one is shown twice: `kani::cover!` of operand pairs whose result is
-// i64::MAX resp. i64::MIN (cases adjacent to overflow lie inside it; 2^63-1 = 7 * 1317624576693539401) and a companion `*_outside_precondition_panics` obligation (dev
-// profile: outside it the operator never returns, so no weaker precondition admits the postcondition).
+// Specification side: the mathematical result of + - * and unary - is computed in i128 (exact for two i64); for / see
+// `m_div`.  Each operator is proved equal to it under the WEAKEST precondition under which an exact i64 result exists
+// at all: the mathematical result lies in [i64::MIN, i64::MAX] and the divisor is not 0 (A7).  That the precondition
+// is the weakest one is shown twice: `kani::cover!` of operand pairs whose result is i64::MAX resp. i64::MIN (cases
+// adjacent to overflow lie inside it; 2^63-1 = 7 * 1317624576693539401), and a companion
+// `*_outside_precondition_panics` obligation (dev profile: outside it the operator never returns, so no weaker
+// precondition admits the postcondition).  The five companions for `*` cost one 128-bit Kissat product each and run
+// in the thorough tier only.
 #![allow(unused_imports, dead_code)]
 use crate::*;
 use crate::verif_support::*;
@@ -17,25 +19,25 @@ use crate::{DimensionlessInteger as D, Time as T};
 const LO: i128 = i64::MIN as i128;
 const HI: i128 = i64::MAX as i128;
 fn exact(x: i128) -> bool { x >= LO && x <= HI }
-fn m_add(a: i64, b: i64) -> Option<i128> { Some(a as i128 + b as i128) }
-fn m_sub(a: i64, b: i64) -> Option<i128> { Some(a as i128 - b as i128) }
+fn m_add(a: i64, b: i64) -> Option<i64> { in_i64(a as i128 + b as i128) }
+fn m_sub(a: i64, b: i64) -> Option<i64> { in_i64(a as i128 - b as i128) }
 /// Product: the 128-bit reference product (Kissat; about 10 s per obligation on an idle machine, CaDiCaL 70 s).  Comparing
 /// with `checked_mul` instead is instantaneous for cvc5 on the unchanged tree, but on mutated code cvc5 times out instead of
 /// producing the counterexample, so the slower, decisive encoding is kept.
-fn m_mul(a: i64, b: i64) -> Option<i128> { Some(a as i128 * b as i128) }
+fn m_mul(a: i64, b: i64) -> Option<i64> { in_i64(a as i128 * b as i128) }
 /// Division: the precondition is explicit; the quotient oracle is Rust's own i64 `/` (truncation toward zero).  A 128-bit
 /// reference quotient, or the defining identity a = q*b + rem through a 64x64->128 multiplier, does not finish under any
 /// available solver (10 min, CaDiCaL / Kissat / cvc5 / z3), so for `/` the independent part is the (explicit, weakest) precondition and
 /// "exact i64 arithmetic" means: the very i64 `/` of the language applied to the two raw values, in this operand order.
 /// The `/` harnesses use cvc5 (bit-vector congruence, 0.5 s): CBMC's SAT encoding of two equal divisions does not finish.
-fn m_div(a: i64, b: i64) -> Option<i128> { if b == 0 || (a == i64::MIN && b == -1) { None } else { Some((a / b) as i128) } }
+fn m_div(a: i64, b: i64) -> Option<i64> { if b == 0 || (a == i64::MIN && b == -1) { None } else { Some(a / b) } }
 /// Last statement of every "always panics" harness.  If the operator under test never panics at all, a bare
 /// `#[kani::should_panic]` harness is reported as a failure without a failed check (driver: undecided); this panic
 /// keeps the harness status well defined, and the `unreach:` cover in front of it turns any normal return into a
 /// refutation that names the obligation.
 fn must_not_return() -> ! { panic!("returned normally although the contract says it always panics") }
-/// exact i64 result of the mathematical operation, if there is one
-fn in_i64(x: Option<i128>) -> Option<i64> { match x { Some(v) if exact(v) => Some(v as i64), _ => None } }
+/// the mathematical result as an i64, if it is one
+fn in_i64(v: i128) -> Option<i64> { if exact(v) { Some(v as i64) } else { None } }
 
 macro_rules! int_bin {
     ($name:ident, $A:ident, $B:ident, $R:ident, $op:tt, $spec:ident, $solver:ident, $hi:expr, $lo:expr) => {
@@ -43,7 +45,7 @@ macro_rules! int_bin {
         #[kani::solver($solver)]
         fn $name() {
             let (a, b): (i64, i64) = (kani::any(), kani::any());
-            let e = in_i64($spec(a, b));
+            let e = $spec(a, b);
             kani::assume(e.is_some());
             let r: $R = $A(a) $op $B(b);
             assert!(Some(r.0) == e);
@@ -60,7 +62,7 @@ macro_rules! int_assign {
         #[kani::solver($solver)]
         fn $name() {
             let (a, b): (i64, i64) = (kani::any(), kani::any());
-            let e = in_i64($spec(a, b));
+            let e = $spec(a, b);
             kani::assume(e.is_some());
             let mut r: $A = $A(a);
             r $aop $B(b);
@@ -79,7 +81,7 @@ macro_rules! int_bin_outside {
         #[kani::should_panic]
         fn $name() {
             let (a, b): (i64, i64) = (kani::any(), kani::any());
-            kani::assume(in_i64($spec(a, b)).is_none());
+            kani::assume($spec(a, b).is_none());
             let _r = $A(a) $op $B(b);
             kani::cover!(true, "unreach: returned normally");
             must_not_return();
@@ -93,7 +95,7 @@ macro_rules! int_assign_outside {
         #[kani::should_panic]
         fn $name() {
             let (a, b): (i64, i64) = (kani::any(), kani::any());
-            kani::assume(in_i64($spec(a, b)).is_none());
+            kani::assume($spec(a, b).is_none());
             let mut r = $A(a);
             r $aop $B(b);
             kani::cover!(true, "unreach: returned normally");
@@ -153,11 +155,11 @@ int_neg!(c18_time_neg, T);
 int_neg_outside!(c18_time_neg_outside_precondition_panics, T);
 //@ob fn="<Time as Mul<DimensionlessInteger>>::mul" at=src/dimensions.rs:195 clause="Time * DimensionlessInteger == the exact product as a Time, whenever the product is an i64 (weakest precondition)"
 int_bin!(c18_time_mul_dint, T, D, T, *, m_mul, kissat, (i64::MAX / 7, 7), (i64::MIN / 2, 2));
-//@ob fn="<Time as Mul<DimensionlessInteger>>::mul" at=src/dimensions.rs:195 clause="dev profile: product outside i64 => panics"
+//@ob fn="<Time as Mul<DimensionlessInteger>>::mul" at=src/dimensions.rs:195 clause="dev profile: product outside i64 => panics" tier=thorough
 int_bin_outside!(c18_time_mul_dint_outside_precondition_panics, T, D, *, m_mul, kissat);
 //@ob fn="<Time as MulAssign<DimensionlessInteger>>::mul_assign" at=src/dimensions.rs:201 clause="Time *= DimensionlessInteger == the exact product, whenever it is an i64 (weakest precondition)"
 int_assign!(c18_time_mul_assign_dint, T, D, *=, m_mul, kissat, (i64::MAX / 7, 7), (i64::MIN / 2, 2));
-//@ob fn="<Time as MulAssign<DimensionlessInteger>>::mul_assign" at=src/dimensions.rs:201 clause="dev profile: product outside i64 => panics"
+//@ob fn="<Time as MulAssign<DimensionlessInteger>>::mul_assign" at=src/dimensions.rs:201 clause="dev profile: product outside i64 => panics" tier=thorough
 int_assign_outside!(c18_time_mul_assign_dint_outside_precondition_panics, T, D, *=, m_mul, kissat);
 //@ob fn="<Time as Div<DimensionlessInteger>>::div" at=src/dimensions.rs:206 clause="Time / DimensionlessInteger == the exact quotient truncated toward zero, for divisor != 0 and (dividend, divisor) != (i64::MIN, -1) (weakest precondition)"
 int_bin!(c18_time_div_dint, T, D, T, /, m_div, cvc5, (i64::MIN + 1, -1), (i64::MIN, 1));
@@ -186,11 +188,11 @@ int_assign!(c18_dint_sub_assign, D, D, -=, m_sub, cadical, (i64::MAX - 1, -1), (
 int_assign_outside!(c18_dint_sub_assign_outside_precondition_panics, D, D, -=, m_sub, cadical);
 //@ob fn="<DimensionlessInteger as Mul>::mul" at=src/dimensions.rs:300 clause="exact product whenever it is an i64 (weakest precondition)"
 int_bin!(c18_dint_mul, D, D, D, *, m_mul, kissat, (i64::MAX / 7, 7), (i64::MIN / 2, 2));
-//@ob fn="<DimensionlessInteger as Mul>::mul" at=src/dimensions.rs:300 clause="dev profile: product outside i64 => panics"
+//@ob fn="<DimensionlessInteger as Mul>::mul" at=src/dimensions.rs:300 clause="dev profile: product outside i64 => panics" tier=thorough
 int_bin_outside!(c18_dint_mul_outside_precondition_panics, D, D, *, m_mul, kissat);
 //@ob fn="<DimensionlessInteger as MulAssign>::mul_assign" at=src/dimensions.rs:306 clause="exact product whenever it is an i64 (weakest precondition)"
 int_assign!(c18_dint_mul_assign, D, D, *=, m_mul, kissat, (i64::MAX / 7, 7), (i64::MIN / 2, 2));
-//@ob fn="<DimensionlessInteger as MulAssign>::mul_assign" at=src/dimensions.rs:306 clause="dev profile: product outside i64 => panics"
+//@ob fn="<DimensionlessInteger as MulAssign>::mul_assign" at=src/dimensions.rs:306 clause="dev profile: product outside i64 => panics" tier=thorough
 int_assign_outside!(c18_dint_mul_assign_outside_precondition_panics, D, D, *=, m_mul, kissat);
 //@ob fn="<DimensionlessInteger as Div>::div" at=src/dimensions.rs:311 clause="exact quotient truncated toward zero, for divisor != 0 and not i64::MIN / -1 (weakest precondition)"
 int_bin!(c18_dint_div, D, D, D, /, m_div, cvc5, (i64::MIN + 1, -1), (i64::MIN, 1));
@@ -206,7 +208,7 @@ int_neg!(c18_dint_neg, D);
 int_neg_outside!(c18_dint_neg_outside_precondition_panics, D);
 //@ob fn="<DimensionlessInteger as Mul<Time>>::mul" at=src/dimensions.rs:328 clause="DimensionlessInteger * Time == the exact product as a Time, whenever it is an i64 (weakest precondition)"
 int_bin!(c18_dint_mul_time, D, T, T, *, m_mul, kissat, (i64::MAX / 7, 7), (i64::MIN / 2, 2));
-//@ob fn="<DimensionlessInteger as Mul<Time>>::mul" at=src/dimensions.rs:328 clause="dev profile: product outside i64 => panics"
+//@ob fn="<DimensionlessInteger as Mul<Time>>::mul" at=src/dimensions.rs:328 clause="dev profile: product outside i64 => panics" tier=thorough
 int_bin_outside!(c18_dint_mul_time_outside_precondition_panics, D, T, *, m_mul, kissat);
 
 macro_rules! i64_identity {
